@@ -53,7 +53,7 @@ def run(ctx):
     ctx.rule = ("exhaustive over {service ok/not} x {interface version ok/not} x {method known/unknown} x all 10 message types x all 11 return "
                 "codes x 3 handler outcomes x {unicast, multicast} with random ids/payloads on top; each case goes through "
                 "SimpleService.message_received with a recording transport; the reply is compared with the model and judged by the extracted "
-                "spec_reply (the property's table); non-trivial = distinct (message, channel, handler outcome)")
+                "spec_reply (the property's table); sequences through ONE service object from seven senders (IPv4 / IPv6, same host other port, link-local addresses differing in scope id or flow label); non-trivial = distinct (message, channel, handler outcome)")
     ctx.exhaustive = True
     ctx.assumptions = ["the handler is a function of the scenario (returns bytes / returns None / raises MalformedMessageError)"]
     addr = ("2001:db8::2", 30501, 0, 0)
@@ -97,6 +97,46 @@ def run(ctx):
         descr.append(k)
         ctx.case(sexp.dumps(arg), kind="exhaustive" if k < len(combos) else "random",
                  sample=dict(arg=sexp.dumps(arg)[:300], reply=sexp.dumps(reply)[:200]) if k in (3, 700) else None)
+    # ONE service object, several senders in turn - IPv4, IPv6, the same host with another port, link-local addresses that
+    # differ only in the scope id or the flow label: every reply goes to the sender of ITS message, whatever came before
+    import random
+    r2 = random.Random(ctx.seed * 7919 + 16)      # a stream of its own: the cases above stay what they were
+    senders = [("192.0.2.7", 40000), ("192.0.2.7", 40001), ("2001:db8::2", 30501, 0, 0), ("fe80::1", 40000, 0, 2), ("fe80::1", 40000, 0, 3),
+               ("fe80::1", 40000, 7, 2), ("fe80::1", 40001, 0, 2)]
+    for k in range(60 if quick else 2000):
+        oc = r2.choice([0, 0, 0, 1, 2])
+        outcome = [0, gen.payload(r2, maxlen=20)] if oc == 0 else [oc]
+        svc, called = make_service(outcome)
+        for step in range(r2.randint(2, 8)):
+            sender = r2.choice(senders)
+            mc = r2.random() < 0.1
+            sok, vok, mok = r2.random() < 0.85, r2.random() < 0.85, r2.random() < 0.85
+            msg = H.SOMEIPHeader(
+                service_id=SVC if sok else SVC + 1, method_id=r2.choice(METHODS) if mok else 2,
+                client_id=gen.id16(r2), session_id=gen.id16(r2), interface_version=VER if vok else VER + 1,
+                message_type=r2.choice([H.SOMEIPMessageType.REQUEST, H.SOMEIPMessageType.REQUEST, H.SOMEIPMessageType.REQUEST_NO_RETURN, H.SOMEIPMessageType.NOTIFICATION]),
+                return_code=H.SOMEIPReturnCode.E_OK, payload=gen.payload(r2, maxlen=16))
+            before = len(svc.transport.sent)
+            del called[:]
+            with warnings.catch_warnings():
+                warnings.simplefilter("ignore")
+                svc.message_received(msg, sender, mc)
+            sent = svc.transport.sent[before:]
+            arg = [SVC, VER, METHODS, conv.s_msg(msg), mc, outcome]
+            if len(sent) > 1:
+                ctx.violation("more than one reply to one message", dict(arg=sexp.dumps(arg), replies=len(sent), step=step))
+            reply = None
+            if sent:
+                data, dest = sent[0]
+                if dest != sender:
+                    ctx.violation("reply sent to someone other than the sender (one service object, several senders)",
+                                  dict(arg=sexp.dumps(arg), sender=repr(sender), dest=repr(dest), step=step))
+                parsed, rest = H.SOMEIPHeader.parse(data)
+                reply = [conv.s_msg(parsed)]
+            cases.append((1601, arg))
+            impl.append([reply, bool(called)])
+            descr.append(("seq", k, step))
+            ctx.case(("seq", k, step, sexp.dumps(arg), repr(sender)), kind="sender-sequence")
     outs = compare(ctx, cases, impl, "SimpleService.message_received differs from Model/ServiceRecv.v", lambda i: sexp.dumps(cases[i][1])[:600])
     spec = ctx.model.batch([(1602, c[1]) for c in cases])
     for c, got, want in zip(cases, impl, spec):
